@@ -25,7 +25,7 @@ SPEC = {
         'junk_token_fails', 'corrupted_load_rejected', 'corrupted_rejected_ppol', 'corrupted_rejected_dmodel', 'corrupted_rejected_sexp', 'corrupted_rejected_dexp',
         'corrupted_rejected_smodel', 'corrupted_rejected_mpol', 'corrupted_rejected_pd', 'corrupted_rejected_ps',
         # bytes <-> tokens: any white-space layout tokenizes back to the token list; byte-level round trip
-        'tokenize_render', 'roundtrip_bytes', 'printN_clean', 'wrDModel_clean', 'wrPPol_clean', 'truncated_bytes_rejected', 'gText_clean', 'printDQ_clean', 'ratIO_printClean',
+        'tokenize_render', 'roundtrip_bytes', 'tokenize_render_trimmed', 'roundtrip_trimmed_bytes', 'load_trimmed_bytes', 'printN_clean', 'wrDModel_clean', 'wrPPol_clean', 'truncated_bytes_rejected', 'gText_clean', 'printDQ_clean', 'ratIO_printClean',
         # the fuel of the policy loop is immaterial (the model is the unbounded while(true))
         'dec_rdEntry', 'polLoop_fuel_step', 'rdPPol_fuel_free', 'ratIO_scanShrinks',
         # tied to the source through Gen/IOPrec
